@@ -185,3 +185,62 @@ def describe_ret(body, st):
 
 def short(name, n=90):
     return name if len(name) <= n else name[: n - 3] + "..."
+
+
+def call_chain(body, op, depth=0, maxdepth=40):
+    """Follow the value behind `op` backwards through copies / refs and through the FIRST
+    argument of every call (receiver chains like s.as_str().to_lowercase().trim()).
+    Returns (list of Call objects nearest-first, root) where root is ('param', k) |
+    ('upvar', place) | ('const', c) | ('local', l) | ('field', place)."""
+    calls = []
+    cur = op
+    for _ in range(maxdepth):
+        c = op_const(cur)
+        if c is not None:
+            return calls, ("const", c)
+        p = op_place(cur)
+        if p is None:
+            return calls, ("other", None)
+        l = p["l"]
+        if body.kind.startswith(("closure", "coroutine")) and l == 1:
+            return calls, ("upvar", p)
+        ds = body.defs.get(l, [])
+        if 1 <= l <= body.arg_count and not ds:
+            return calls, ("param", l)
+        if len(ds) != 1:
+            return calls, ("local", l)
+        bb, kind, d = ds[0]
+        if kind == "call":
+            calls.append(d)
+            if not d.args:
+                return calls, ("call0", d)
+            cur = d.args[0]
+            continue
+        rv = d["rv"]
+        if rv["k"] in ("use", "cast"):
+            cur = rv["op"]
+        elif rv["k"] in ("ref", "rawptr"):
+            cur = {"copy": rv["place"]}
+            if rv["place"]["p"] and any(isinstance(e, dict) and "f" in e for e in rv["place"]["p"]):
+                # keep walking from the base local but remember the field
+                cur = {"copy": {"l": rv["place"]["l"], "p": []}}
+        else:
+            return calls, ("local", l)
+    return calls, ("other", None)
+
+
+def loop_containing(body, bb):
+    for comp in cfg.sccs(body):
+        if bb in comp and (len(comp) > 1 or bb in body.succ[bb]):
+            return comp
+    return set()
+
+
+def callee_consts(facts, fn_pat, const_suffix):
+    """value of a `const NAME: &str` declared inside a function (exported as its own body)"""
+    for b in facts.find(fn_pat + r"::" + const_suffix + r"$"):
+        for (bb, st) in return_values(b):
+            c = op_const(st["rv"].get("op")) if st["rv"]["k"] == "use" else None
+            if c is not None and "str" in c:
+                return c["str"]
+    return None
